@@ -235,6 +235,59 @@ def value_matrix(chk, root):
     return fails
 
 
+LAZY_CHILD = '''import json, sys
+root = sys.argv[1]
+sys.path.insert(0, root)
+import twosigma.memento as m
+from twosigma.memento import Environment, ConfigurationRepository, FunctionCluster
+from twosigma.memento.storage_filesystem import FilesystemStorageBackend
+m.Environment.set(Environment(name="cv", base_dir=root, repos=[ConfigurationRepository(name="r", clusters={
+    "cv": FunctionCluster(name="cv", storage=FilesystemStorageBackend(path=root + "/store"))})]))
+import c02_lazy
+out = []
+for n in (3, 3):
+    try:
+        c02_lazy.check(n)
+        out.append(["returned"])
+    except Exception as e:
+        out.append([type(e).__module__ + ":" + type(e).__name__, str(e).split(". Original stack trace")[0]])
+print(json.dumps(dict(outcomes=out, runs=c02_lazy.runs())))
+'''
+
+
+def lazy_exception_scenario(root):
+    """an exception whose class lives in a module the body imports itself: a later process (which never runs the body, hence has
+    not imported that module) replays the recorded exception as the same class — it can be rebuilt from its message"""
+    import subprocess
+    import tempfile
+    d = tempfile.mkdtemp(prefix="c02lazy_", dir=root)
+    open(os.path.join(d, "c02_errs.py"), "w").write("class QuotaExceeded(Exception):\n    pass\n")
+    open(os.path.join(d, "c02_lazy.py"), "w").write(
+        "import os\nfrom twosigma.memento import memento_function\n\n_LOG = os.path.join(os.path.dirname(os.path.abspath(__file__)), 'runs.log')\n\n\n"
+        "def runs():\n    return len(open(_LOG).read()) if os.path.exists(_LOG) else 0\n\n\n"
+        "@memento_function(cluster='cv', version='1')\ndef check(n):\n    with open(_LOG, 'a') as f:\n        f.write('x')\n"
+        "    from c02_errs import QuotaExceeded\n    raise QuotaExceeded('quota exceeded for account %d' % n)\n")
+    env = dict(os.environ, PYTHONPATH=common.REPO, PYTHONDONTWRITEBYTECODE="1")
+    fails, outs = [], []
+    try:
+        for proc in (1, 2):
+            p = subprocess.run([common.PY, "-B", "-c", LAZY_CHILD, d], stdout=subprocess.PIPE, stderr=subprocess.PIPE, text=True, env=env, timeout=120)
+            lines = [ln for ln in p.stdout.split("\n") if ln.startswith("{")]
+            if not lines:
+                raise common.Infra("lazy-exception child failed: " + p.stderr[-400:])
+            outs.append(json.loads(lines[-1]))
+        want = ["c02_errs:QuotaExceeded", "quota exceeded for account 3"]
+        for proc, o in enumerate(outs, 1):
+            for k, got in enumerate(o["outcomes"]):
+                if got != want:
+                    fails.append(dict(clause="exception-replayed-same-class", process=proc, call=k + 1, got=got, expected=want))
+        if outs[-1]["runs"] != 1:
+            fails.append(dict(clause="body-runs-once", runs=outs[-1]["runs"]))
+    finally:
+        shutil.rmtree(d, ignore_errors=True)
+    return fails
+
+
 MOD_SRC = """from twosigma.memento import memento_function
 import c02fns
 
@@ -387,6 +440,10 @@ def main(chk, replay=None):
             f = [x for x in modifier_scenario(chk, None) if x["clause"] == replay["class"]["clause"] and x["fn"] == replay["class"]["fn"]]
             print(json.dumps(dict(still_fails=bool(f), observed=f[:3]), default=str))
             return 1 if f else 0
+        if replay.get("stream") == "lazy-exception":
+            f = lazy_exception_scenario(None)
+            print(json.dumps(dict(still_fails=bool(f), observed=f[:3]), default=str))
+            return 1 if f else 0
         if replay.get("stream") == "value-matrix":
             f = [x for x in value_matrix(chk, None) if x["clause"] == replay["class"]["clause"] and x.get("value") == replay["observed"].get("value")]
             print(json.dumps(dict(still_fails=bool(f), observed=f[:3]), default=str))
@@ -398,7 +455,7 @@ def main(chk, replay=None):
     chk.rule = ("generated call-DAG programs (2-6 functions; nested, repeated, batched, failing with rebuildable / opaque / "
                 "non-memoized exceptions, caught or propagating; context overrides, ignore_result, prevent_further_calls, "
                 "hidden dynamic calls, resources) x histories of call / immediate repeat / call_batch / forget+call / "
-                "memento x {memory, fs, fs+cache}; plus 49 result values of every supported type x 4 backends; plus functions declared with a version salt / automatic / explicit version / declared dependencies called through modifier clones and plainly, in both orders, with and without a registration in between. "
+                "memento x {memory, fs, fs+cache}; plus 51 result values of every supported type x 4 backends; plus functions declared with a version salt / automatic / explicit version / declared dependencies called through modifier clones and plainly, in both orders, with and without a registration in between. "
                 "Distinct = distinct (program, backend, history); non-trivial = program has >= 1 nested call.")
     proof_ok = chk.build_and_audit()
     # translator part: finite decision tables regenerated from the running code, theorems over them re-checked
@@ -412,6 +469,12 @@ def main(chk, replay=None):
         chk.violation({"what": "value matrix: %s for %s on %s" % (f["clause"], f.get("value"), f.get("backend")),
                        "class": {"clause": f["clause"], "stream": "value-matrix", "value_kind": (f.get("value") or "").split("-")[0]},
                        "stream": "value-matrix", "observed": f})
+    lf = lazy_exception_scenario(chk.tmpdir())
+    chk.case(["exception-class-imported-by-the-body"], nontrivial=True, sample=dict(kind="recorded exception replayed in a later process"))
+    chk.count("lazy-exception-processes", 2)
+    for f in lf[:1]:
+        chk.violation({"what": "recorded exception replayed in process %s as %s (expected %s)" % (f.get("process"), f.get("got"), f.get("expected")),
+                       "class": {"clause": f["clause"], "stream": "lazy-exception"}, "stream": "lazy-exception", "observed": lf[:3]})
     for f in modifier_scenario(chk, chk.tmpdir())[:3]:
         chk.violation({"what": "modifier clone vs plain call (%s via %s, %s): %s" % (f["fn"], f["modifier"], f["order"], f["clause"]),
                        "class": {"clause": f["clause"], "stream": "modifiers", "fn": f["fn"]}, "stream": "modifiers", "observed": f})
